@@ -6,7 +6,7 @@ wt=$(mktemp -d /tmp/mutwt.XXXXXX)
 git -C /repo worktree add -q --detach $wt HEAD || exit 9
 ( cd $wt && git apply "$patch" ) || { echo "patch does not apply"; git -C /repo worktree remove --force $wt; exit 9; }
 cd /verif
-VERIF_REPO=$wt timeout 1500 ./bin/gosym check -p $prop -tier quick "$@" 2>&1 | grep -a -E "VIOLATION|KNOWN-FINDING|INCONCLUSIVE|BROKEN|^property|harness=" | cut -c1-300
+VERIF_REPO=$wt timeout 1500 ${GOSYM:-./bin/gosym} check -p $prop -tier quick "$@" 2>&1 | grep -a -E "VIOLATION|KNOWN-FINDING|INCONCLUSIVE|BROKEN|^property|harness=" | cut -c1-300
 rc=${PIPESTATUS[0]}
 git -C /repo worktree remove --force $wt
 echo "exit=$rc"
